@@ -1,7 +1,7 @@
 (* C12 — keyspaces are isolated, and a deleted keyspace never comes back.
    FULL STATEMENT decided by the differential check (create/write/delete/re-create histories with reopen
    anywhere).  Proved parts are named ..._partial. *)
-From FJ Require Import Bytes Codec Reader Lsm Tracker Db Prog RecoverP DbOrderP RefineP.
+From FJ Require Import Bytes Codec Reader Lsm Tracker Db Prog RecoverP DbOrderP RefineP RecoverInvP.
 
 (* a single write to one keyspace leaves every other keyspace object (tree included) exactly as it was *)
 Theorem C12_frame_partial : forall d id k v vt mvt ks',
@@ -47,6 +47,29 @@ Proof.
   intros I d h name k B. rewrite (do_ks_refines I d h name). cbn [sstep]. rewrite B. unfold sclear. rewrite N.eqb_refl. reflexivity.
 Qed.
 
+(* deleting a keyspace changes no read of any keyspace object: every other keyspace is untouched, and the deleted one stays
+   readable through handles opened before (its tree is dropped with its last handle) *)
+Theorem C12_delete_changes_no_read : forall (I : N) (d : db) (h : N) (i : N) (k : bytes),
+  absd I (fst (do_delks d h)) i k = absd I d i k.
+Proof. intros. apply delks_reads. Qed.
+
+(* after the deletion the name is free, and the keyspace created under it next is a NEW one (the next id) that reads empty:
+   nothing written under the deleted incarnation is visible in it *)
+Theorem C12_recreated_name_is_a_new_empty_keyspace : forall (I : N) (d : db) (h h2 : N) (ks : kspace) (id : N),
+  alookup h (d_handles d) = Some id -> ks_of d id = Some ks -> blookup (k_name ks) (d_map d) <> None ->
+  let d1 := fst (do_delks d h) in
+  blookup (k_name ks) (d_map d1) = None /\
+  forall k, absd I (fst (do_ks d1 h2 (k_name ks))) (d_next_id d1) k = None.
+Proof. exact delks_then_create_is_empty. Qed.
+
+(* programs with deletions and reopens keep the invariants under which all of the above (and C01's refinement steps) hold *)
+Theorem C12_invariants_with_deletion_and_reopen : forall (ops : list rop) d,
+  DInv d -> JS d -> DInv (fold_left rstep ops d) /\ JS (fold_left rstep ops d).
+Proof. exact rrun_inv. Qed.
+
+Print Assumptions C12_delete_changes_no_read.
+Print Assumptions C12_recreated_name_is_a_new_empty_keyspace.
+Print Assumptions C12_invariants_with_deletion_and_reopen.
 Print Assumptions C12_frame.
 Print Assumptions C12_new_keyspace_empty.
 Print Assumptions C12_frame_partial.
